@@ -49,6 +49,18 @@ reg("Attack_rate_cts_time_from_graph", True, ALL, None, scalar=True)
 KINDS = ["regular", "star", "gnp", "isolated", "components", "path", "tree"]
 
 
+def decorate(rng, G):
+    """attributes the call does not ask for (an edge / node attribute literally named 'weight' — networkx's default weight
+    key — and an unrelated one): with transmission_weight / recovery_weight left at None every edge transmits at rate
+    tau and every node recovers at rate gamma, whatever is stored on the graph"""
+    for u, v in G.edges():
+        G.edges[u, v]["weight"] = rng.choice([0.5, 2.5, 3.0])
+        G.edges[u, v]["length"] = rng.choice([1, 7])
+    for u in G:
+        G.nodes[u]["weight"] = rng.choice([0.25, 4.0])
+    return G
+
+
 def graph(rng, small=False, kind=None):
     kind = kind or rng.choice(KINDS)
     n = rng.randint(4, 8) if small else rng.randint(6, 24)
@@ -76,6 +88,8 @@ def graph(rng, small=False, kind=None):
         G = nx.random_labeled_tree(n, seed=seed) if hasattr(nx, "random_labeled_tree") else nx.path_graph(n)
     if G.number_of_edges() == 0:
         G = nx.path_graph(max(n, 2))
+    if rng.random() < 1 / 3:
+        decorate(rng, G)
     return G, kind
 
 
